@@ -909,13 +909,23 @@ impl State {
             Xfn::Native(x) => x.0(self),
             Xfn::Interp(x) => {
                 let return_to = self.ip();
+                let depth = self.return_stack.len();
                 self.push_return(Frame {
                     fn_addr: x,
                     return_to,
                     locals: Default::default(),
                 })?;
                 self.set_ip(x);
-                self.run()
+                // run the word itself and stop where it returns to: the code compiled so far
+                // is not this word's to execute
+                self.clear_last_error();
+                while self.return_stack.len() > depth && self.is_running() {
+                    self.fetch_and_run().map_err(|e| {
+                        self.set_runtime_err_location(&e);
+                        e
+                    })?;
+                }
+                OK
             }
         }
     }
